@@ -28,6 +28,9 @@ def check_bank(ctx, pid="C21"):
     comp = Component(ctx.repo, REL, "MemoryBank", rule=pid)
     comp.require_modelled(pid)
     ctx.floor(pid, "MemoryBank configurations", len(comp.configs), 6, comp.site)
+    from . import kinds
+
+    ctx.floor(pid, "MemoryBank reset_less registers", kinds.register_wire_discipline(ctx, pid, comp, "MemoryBank"), 2, comp.site)
     for ex in comp.configs:
         cn = cfg_name(ex)
         req, resp, wr = (need_body(ex, n, pid, comp.site) for n in ("read_req", "read_resp", "write"))
@@ -71,6 +74,15 @@ def check_bank(ctx, pid="C21"):
             (f_and(RESP, A(OV)), const_pred(0), "a response drains the overflow buffer first"),
             (f_and(f_not(spill), f_not(f_and(RESP, A(OV)))), HOLD, "otherwise holds"),
         ])
+        # everything that happens on a spill is a register update (address and data of the pending response are captured
+        # together with the flag; a combinational assignment there would not be held until the response is read)
+        setters = [w for _, w in t_ov.rows if w is not None and w.rhs == ("c", 1)]
+        if setters:
+            fr0 = setters[0].fact.frames
+            mates = [h for h in ex.of(HwAssign) if h.frames == fr0]
+            wrong = [h for h in mates if not is_sync(h.domain)]
+            ctx.check(len(mates) >= 3 and not wrong, f"{pid}.spill-captures-registers", setters[0].fact.site, f"MemoryBank.spill[{cn}]", found=f"{len(mates)} assignment(s) on spill" + (f"; combinational: {tstr(wrong[0].lhs)}" if wrong else ""),
+                      required="on a spill the overflow flag, address and data are all captured in registers (clocked assignments)")
         # ---- response value: overflow first
         rv = returned_fields(resp).get("data")
         if rv is None:
